@@ -226,8 +226,10 @@ func (f *SexpField) SexpString(ps *PrintState) string {
 	str := " (" + hash.TypeName + " "
 
 	for i, key := range hash.KeyOrder {
-		val, err := hash.HashGet(nil, key)
-		if err == nil {
+		// plain lookup of the stored key: a key that is a dot-symbol must not
+		// be followed as a path, and printing must never panic.
+		val, err := hash.HashGetDefault(hash.Env, key, SexpEnd)
+		if err == nil && val != SexpEnd {
 			switch s := key.(type) {
 			case *SexpStr:
 				str += s.S + ":"
@@ -241,8 +243,6 @@ func (f *SexpField) SexpString(ps *PrintState) string {
 			} else {
 				str += val.SexpString(nil) + "    "
 			}
-		} else {
-			panic(err)
 		}
 	}
 	if len(hash.Map) > 0 {
